@@ -5,6 +5,7 @@
 #include <etl/_config/all.hpp>
 
 #include <etl/_concepts/integral.hpp>
+#include <etl/_limits/numeric_limits.hpp>
 #include <etl/_type_traits/is_constant_evaluated.hpp>
 #include <etl/_type_traits/is_same.hpp>
 
@@ -14,11 +15,19 @@ namespace detail {
 template <typename T>
 [[nodiscard]] constexpr auto rint_fallback(T arg) noexcept -> T
 {
-    if constexpr (sizeof(T) <= sizeof(long)) {
-        return static_cast<T>(static_cast<long>(arg));
-    } else {
-        return static_cast<T>(static_cast<long long>(arg));
+    // 2^(digits-1): from here on every value is integral; the test also keeps NaN and infinities
+    constexpr auto limit = T(1) / etl::numeric_limits<T>::epsilon();
+    if (not(arg > -limit and arg < limit)) {
+        return arg;
     }
+    if (arg == T(0)) {
+        return arg;
+    }
+
+    // adding and subtracting 2^(digits-1) rounds to an integer, ties to even
+    auto const mag     = arg < T(0) ? -arg : arg;
+    auto const rounded = (mag + limit) - limit;
+    return arg < T(0) ? -rounded : rounded;
 }
 
 template <typename T>
